@@ -1506,3 +1506,26 @@ Proof.
   destruct (run Cur 1000 w3 io_init [] [OOpen 0 false; OWalk 1 [(1, true)]; OClose 1]) as [[[s' p'] rs']|] eqn:E2; [|vm_compute in E2; discriminate].
   vm_compute in E2. inversion E2; subst. eexists. eexists. split; reflexivity.
 Qed.
+
+(* ------------------------------------------------------------------ HDF5 side: the forced close of ADFH_Database_Close *)
+Lemma forced_close_all (s : h5ids) : forced_close passes_cur s = no_ids.
+Proof.
+  unfold forced_close. destruct (Nat.eqb (id_total s) 0) eqn:E.
+  - apply Nat.eqb_eq in E. destruct s as [a b c d]. unfold id_total in E. simpl in E.
+    assert (a = 0 /\ b = 0 /\ c = 0 /\ d = 0) as (-> & -> & -> & ->) by lia. reflexivity.
+  - destruct s as [a b c d]. unfold passes_cur, no_ids. simpl. rewrite !Nat.min_id, !Nat.sub_diag. reflexivity.
+Qed.
+
+Lemma forced_close_releases (s : h5ids) : file_released (forced_close passes_cur s) = true /\
+  forall k, id_count (forced_close passes_cur s) k = 0.
+Proof. rewrite forced_close_all. split; [reflexivity | intros []; reflexivity]. Qed.
+
+Lemma h5session_releases (ops : list h5op) : file_released (h5session ops) = true.
+Proof. unfold h5session. apply forced_close_releases. Qed.
+
+(* the pairing matters: a block whose dataset step counts datatypes leaves the datasets (and with them the file) open *)
+Lemma forced_close_pairing_example :
+  let ps := [(IType, IType); (IType, IDset); (IAttr, IAttr); (IGroup, IGroup)] in
+  forced_close ps (fold_left h5step [HNode; HFailedRead] no_ids) = mkids 0 1 0 0 /\
+  file_released (forced_close ps (fold_left h5step [HNode; HFailedRead] no_ids)) = false.
+Proof. split; reflexivity. Qed.
